@@ -62,6 +62,12 @@ BASES = [
     # 14: SimpleTaskPool N=2, start 6 + start 6
     {"pools": [{"cls": "S", "size": 2, "args": 0, "bodies": [{"pre": [Y(1)]}], "ecb": {}, "ccb": {}}],
      "steps": [{"op": "start", "pool": 0, "num": 6}, {"op": "y", "k": 2}, {"op": "start", "pool": 0, "num": 6}]},
+    # 15: N=3, housekeeping workers: each requests a group and cancels it in the same handle (a spawner cancelled before its
+    # first step), then awaits flush() of its own pool inline
+    {"pools": [{"cls": "T", "size": 3}], "steps": [_apply(0, 2, bodies=[{"pre": [Y(1), ["op", {"op": "seq", "steps": [
+        {"op": "apply", "pool": 0, "num": 1, "args": 0, "fname": "x", "marker": True, "gname": "zz", "bodies": [{"pre": [["y", 1]]}]},
+        {"op": "cancel_group", "pool": 0, "sel": ["name", "zz"]}]}], ["f"], Y(1)]}], ecb={"async": True, "y": 1}),
+        _apply(0, 1, bodies=[{"pre": [Y(2)]}])]},
 ]
 
 OPS = {
@@ -101,7 +107,7 @@ SPECS = {
     "C10": ["cancel_group0", "apply1", "start1", "regroup", "regroup_map"],
     "C11": ["flush", "cancel0", "apply1", "start1"],
     "C12": ["flush_raise", "flush", "gac"],
-    "C13": ["flush", "flush_raise"],
+    "C13": ["flush", "flush_raise", "cancel0", "cancel_last", "cancel_group0"],
     "C14": ["stop1", "stop2", "stop_all"],
 }
 
